@@ -158,6 +158,16 @@ func (m *Order) AfterStep(c *sim.Cluster) []ev.Violation {
 						What:   fmt.Sprintf("node %d: event %s has round-received %d but is not in that round's frame", n.Idx, short(hex), r),
 						Replay: replay(c, map[string]interface{}{"node": n.Idx, "round": r})})
 				}
+				if inFrame[hex] && !vi.HasRoundReceived {
+					// an event re-read from a database carries no round-received of its own: the round's list decides
+					if ri, err := n.Store.GetRound(r); err == nil {
+						for _, x := range ri.ReceivedEvents {
+							if x == hex {
+								vi.HasRoundReceived, vi.RoundReceived = true, r
+							}
+						}
+					}
+				}
 				if inFrame[hex] && (!vi.HasRoundReceived || vi.RoundReceived != r) {
 					out = append(out, ev.Violation{Property: "C04", Key: "frame-event-wrong-round-received",
 						What:   fmt.Sprintf("node %d: event %s is in frame %d but its round-received is %d (set=%v)", n.Idx, short(hex), r, vi.RoundReceived, vi.HasRoundReceived),
